@@ -1,7 +1,7 @@
 (* C17 -- property theorems only: each is closed by [exact] of a lemma proved elsewhere.
    M, TH, PG, OV are the constants translated from /repo (Gen/Consts.v); [jk] is the value of indeterminate bytes. *)
 From Coq Require Import List NArith ZArith.
-From Muscle Require Import Gen.Consts Cont.StrL0 Cont.StrModel Cont.StrLemmas Cont.StrCore Cont.StrDist Cont.StrOps Cont.StrRefine Cont.StrProofs.
+From Muscle Require Import Gen.Consts Cont.StrL0 Cont.StrModel Cont.StrSpec Cont.StrLemmas Cont.StrCore Cont.StrDist Cont.StrOps Cont.StrRefine Cont.StrProofs.
 Import ListNotations.
 Local Open Scope N_scope.
 
@@ -125,9 +125,16 @@ Theorem C17_pinned_distance_refuted :
 Proof. exact pinned_distance_refuted. Qed.
 Print Assumptions C17_pinned_distance_refuted.
 
+Theorem C17_pinned_multi_match_refuted :
+  exists key l, key_at [(key, [88])] (dropN 1 l) = Some (key, [88]) /\ naive_matches key key l 0 = [].
+Proof. exact pinned_multi_match_refuted. Qed.
+Print Assumptions C17_pinned_multi_match_refuted.
+
 (* non-vacuity: the domain holds a boundary-crossing, aliasing script and two storage modes of one value *)
 Example C17_domain_inhabited : run_ok [] ex_ops.
 Proof. exact ex_run_ok. Qed.
+Example C17_domain_inhabited2 : run_ok [] ex_ops2.
+Proof. exact ex_run_ok2. Qed.
 Example C17_two_modes :
   let s1 := abc1 true 0 in let s2 := abc1 true 40 in
   inv pM s1 /\ inv pM s2 /\ is_long s1 = false /\ is_long s2 = true /\ abs pM s1 = abs pM s2 /\ nulfree (abs pM s1) /\
